@@ -167,8 +167,15 @@ def check(pid, tier='quick', seed=0):
         print(l)
     for v in undecided:
         print(f'UNDECIDED property={pid} obligation={v.fn}:{v.name} ({str(v.detail)[:160]}) -> bounded stand-in decides this clause')
+    selftest = None
+    if tier == 'thorough' and not os.environ.get('VT_NO_EVIDENCE') and not os.environ.get('VT_NO_SELFTEST'):
+        try:
+            from . import selftest as st_
+            selftest = [dict(id=r.get('id'), expect=r.get('expect'), caught=r.get('caught'), error=r.get('error')) for r in st_.for_property(pid)]
+        except Exception as e:
+            selftest = [dict(error=f'{type(e).__name__}: {e}')]
     wall = time.time() - t0
-    _evidence(pid, tier, seed, cfg, verdicts, bounded, len(violations), wall)
+    _evidence(pid, tier, seed, cfg, verdicts, bounded, len(violations), wall, selftest=selftest)
     if broken:
         for v in broken:
             print(f'CHECKER-BROKEN property={pid} canary {v.fn}:{v.name} was discharged')
@@ -212,7 +219,7 @@ def _claims(kind, pid):
     return getattr(claims, kind).get(pid, [])
 
 
-def _evidence(pid, tier, seed, cfg, verdicts, bounded, nviol, wall, note=''):
+def _evidence(pid, tier, seed, cfg, verdicts, bounded, nviol, wall, note='', selftest=None):
     if os.environ.get('VT_NO_EVIDENCE'):
         return
     obligations = [v for v in verdicts if not v.status.startswith('canary')]
@@ -237,6 +244,7 @@ def _evidence(pid, tier, seed, cfg, verdicts, bounded, nviol, wall, note=''):
         explanation=cfg.EXPLANATION + (' NOTE: ' + note if note else ''),
         assumed_contracts=_claims('ASSUMED', pid),
         decided_only_by_bounded_stand_in=_claims('BOUNDED_ONLY', pid),
+        mutation_selftest=selftest,
     )
     if bounded:
         cov.update(evaluations=bounded['evaluations'], distinct_nontrivial=bounded['distinct_nontrivial'],
